@@ -17,6 +17,7 @@ import (
 	"sort"
 	"strings"
 	"sync"
+	"sync/atomic"
 	"time"
 
 	corecrl "github.com/notaryproject/notation-core-go/revocation/crl"
@@ -30,9 +31,15 @@ type gnameSpec struct {
 	other byte   // tag of the non-URI name: 0x82 dNSName, 0xA4 directoryName, 0x87 iPAddress
 }
 type dpSpec struct {
-	kind    string // noName | noName-reasons | fullName | relativeName | malformed-not-seq | malformed-name
+	kind    string // noName | noName-reasons | fullName | relativeName | malformed-not-seq | malformed-name | raw-names
 	names   []gnameSpec
 	reasons bool // add a reasons field after the name
+	// raw-names: the bytes inside fullName as given (damaged DER), and what they amount to for a reader that stops at the first
+	// element that is not a well-formed URI name: the names before it (rawAbs) or a parse error (rawMalformed)
+	raw          []byte
+	rawAbs       []gnameSpec
+	rawMalformed bool
+	rawName      string
 }
 type freshSpec struct {
 	kind     string // absent | notSequence | empty-value | points
@@ -69,6 +76,8 @@ func (d dpSpec) der() []byte {
 	case "malformed-name":
 		// [0] present, but its content is a primitive OCTET STRING instead of [0]/[1]
 		return tlv(0x30, tlv(0xA0, tlv(0x04, []byte{1})))
+	case "raw-names":
+		return tlv(0x30, tlv(0xA0, tlv(0xA0, d.raw)))
 	}
 	var inner []byte
 	for _, n := range d.names {
@@ -95,6 +104,15 @@ func (d dpSpec) abs() any {
 		return "relativeName"
 	case "malformed-not-seq", "malformed-name":
 		return "malformed"
+	case "raw-names":
+		if d.rawMalformed {
+			return "malformed"
+		}
+		names := []any{}
+		for _, n := range d.rawAbs {
+			names = append(names, map[string]any{"uri": n.uri})
+		}
+		return map[string]any{"fullName": append(names, "other")}
 	}
 	names := []any{}
 	for _, n := range d.names {
@@ -149,6 +167,9 @@ func (f freshSpec) name() string {
 	var parts []string
 	for _, p := range f.points {
 		s := p.kind
+		if p.kind == "raw-names" {
+			s = "raw(" + p.rawName + ")"
+		}
 		if p.kind == "fullName" {
 			var ns []string
 			for _, n := range p.names {
@@ -219,6 +240,15 @@ func freshShapes() []freshSpec {
 		points(full(uri(urlLdap)), full(uri(urlDS)), full(uri("ftp://crl.example/d.crl"))),
 		points(full(uri(urlBad))),
 		points(full(uri(""))),
+		// damaged DER inside the names
+		points(dpSpec{kind: "raw-names", rawName: "directoryName-length-overrun", raw: []byte{0xa4, 0x05, 0x01}}),
+		points(dpSpec{kind: "raw-names", rawName: "uri-then-lone-byte", raw: append(tlv(0x86, []byte(urlD1)), 0x01), rawAbs: []gnameSpec{uri(urlD1)}}),
+		points(dpSpec{kind: "raw-names", rawName: "uri-then-truncated-name", raw: append(tlv(0x86, []byte(urlD1)), 0x82, 0x20, 'x'), rawAbs: []gnameSpec{uri(urlD1)}}),
+		points(dpSpec{kind: "raw-names", rawName: "uri-indefinite-length", raw: append([]byte{0x86, 0x80}, []byte(urlD1)...), rawMalformed: true}),
+		points(dpSpec{kind: "raw-names", rawName: "uri-length-overrun", raw: []byte{0x86, 0x7f, 'h', 't'}, rawMalformed: true}),
+		points(dpSpec{kind: "raw-names", rawName: "zero-byte", raw: []byte{0x00}}),
+		points(dpSpec{kind: "raw-names", rawName: "high-tag-number", raw: []byte{0x9f, 0x81, 0x01, 0x00}}),
+		points(full(uri(urlD1)), dpSpec{kind: "raw-names", rawName: "second-point-directoryName-length-overrun", raw: []byte{0xa4, 0x05, 0x01}}),
 		points(full(uri(urlUpper))),
 		points(full(uri(urlBad), uri(urlD1))),
 		points(dpSpec{kind: "fullName", names: []gnameSpec{uri(urlD1)}, reasons: true}),
@@ -505,7 +535,13 @@ func (c fetchCfg) String() string {
 }
 
 // runFetchHistory executes one history against a new fetcher and submits one case per fetch
+// once a fetch has hung, its goroutine may be spinning: further histories would only add more of them
+var fetchHung atomic.Bool
+
 func runFetchHistory(r *Runner, pool *crlPool, cfg fetchCfg, init func(w *fetchWorld), ops []fetchOp, label string, idx int) {
+	if fetchHung.Load() {
+		return
+	}
 	w := &fetchWorld{pool: pool, server: map[string]srvAns{}, cache: map[string]*corecrl.Bundle{}}
 	if init != nil {
 		init(w)
@@ -545,14 +581,47 @@ func runFetchHistory(r *Runner, pool *crlPool, cfg fetchCfg, init func(w *fetchW
 			impl := map[string]any{}
 			var b *corecrl.Bundle
 			var ferr error
+			hung := false
 			func() {
 				defer func() {
 					if p := recover(); p != nil {
 						impl["panic"] = fmt.Sprint(p)
 					}
 				}()
-				b, ferr = f.Fetch(context.Background(), op.url)
+				type fr struct {
+					b   *corecrl.Bundle
+					err error
+					pv  any
+				}
+				done := make(chan fr, 1)
+				go func() {
+					var x fr
+					defer func() {
+						if p := recover(); p != nil {
+							x.pv = p
+						}
+						done <- x
+					}()
+					x.b, x.err = f.Fetch(context.Background(), op.url)
+				}()
+				select {
+				case x := <-done:
+					if x.pv != nil {
+						panic(x.pv)
+					}
+					b, ferr = x.b, x.err
+				case <-time.After(8 * time.Second):
+					// the fetch neither returned nor failed: nothing more can be observed on this fetcher
+					hung = true
+					fetchHung.Store(true)
+				}
 			}()
+			if hung {
+				r.Submit(&Case{ID: fmt.Sprintf("%s-%d.%d", label, idx, step), K: "fetch", Class: cfg.String() + "/" + label, local: true,
+					localClause: "fetch_does_not_return_once_the_transport_has_answered", In: in, Impl: map[string]any{"outcome": "hang"},
+					Replay: map[string]any{"config": cfg.String(), "history": append([]string{}, names...), "url": op.url}})
+				return
+			}
 			if _, p := impl["panic"]; p {
 				impl["ok"] = false
 			} else if ferr != nil {
